@@ -1,12 +1,10 @@
-// explore: throw-away inventory printer used while developing rules (not part of any check).
 package main
 
 import (
 	"fmt"
-	"os"
-	"sort"
-
-	"golang.org/x/tools/go/ssa"
+	"go/types"
+	"reflect"
+	"strings"
 
 	"omnilint/core"
 )
@@ -14,90 +12,32 @@ import (
 func main() {
 	c, err := core.Load("/repo", core.Variant{Name: "default"})
 	if err != nil {
-		fmt.Println(err)
-		os.Exit(1)
+		panic(err)
 	}
 	c.SSA()
-	roots := []*ssa.Function{c.Method("", "schema", "NewTransform"), c.Method("", "transform", "Read"), c.Method("", "transform", "RawRecord"),
-		c.Method("extensions/omniv21", "rawRecord", "Raw"), c.Method("extensions/omniv21", "rawRecord", "Checksum")}
-	for _, rel := range []string{"customfuncs", "extensions/omniv21/customfuncs"} {
-		in := c.SSAPkg(rel).Func("init")
-		for _, b := range in.Blocks {
-			for _, i := range b.Instrs {
-				if mu, ok := i.(*ssa.MapUpdate); ok {
-					if mi, ok := mu.Value.(*ssa.MakeInterface); ok {
-						if f, ok := mi.X.(*ssa.Function); ok {
-							roots = append(roots, f)
-						}
-					}
-				}
-			}
-		}
-	}
-	for _, r := range roots {
-		fmt.Println("root", r)
-	}
-	run := c.Reachable(roots, nil)
-	pathTo(c, roots, "omniparser.NewSchema")
-	pathTo(c, roots, "cli/cmd.httpGetVersion")
-	pathTo(c, roots, "cli/cmd.httpPostTransform")
-	pathTo(c, roots, "extensions/omniv21/customfuncs.resetCaches")
-	n := 0
-	var lines []string
-	for f := range run {
-		if !core.InRepo(core.FuncPkg(f)) {
+	for _, f := range c.RepoFunctions() {
+		if core.IsCLIOrSample(core.FuncPkg(f)) {
 			continue
 		}
-		n++
-		for _, b := range f.Blocks {
-			for _, in := range b.Instrs {
-				for _, op := range in.Operands(nil) {
-					if g, ok := (*op).(*ssa.Global); ok {
-						lines = append(lines, fmt.Sprintf("%s: %s in %s [%T]", g.String(), c.Position(core.InstrPos(in)), core.FuncKey(f), in))
-					}
+		for _, w := range core.Writes(f) {
+			if w.Field == nil || w.Owner == nil || !w.Field.Exported() {
+				continue
+			}
+			st, ok := w.Owner.Underlying().(*types.Struct)
+			if !ok {
+				continue
+			}
+			tag := ""
+			for i := 0; i < st.NumFields(); i++ {
+				if st.Field(i) == w.Field {
+					tag = reflect.StructTag(st.Tag(i)).Get("json")
 				}
 			}
+			if tag == "" || !core.InRepo(w.Owner.Obj().Pkg()) {
+				continue
+			}
+			fmt.Printf("%s\t%s.%s\t%s\tkind=%s fresh=%v\n", c.Position(w.Pos), w.Owner.Obj().Name(), w.Field.Name(), core.FuncKey(f), w.Kind, core.IsFresh(w.Root))
 		}
 	}
-	sort.Strings(lines)
-	fmt.Println("run-set repo functions:", n, "total:", len(run))
-	for _, l := range lines {
-		fmt.Println(l)
-	}
+	_ = strings.Join
 }
-
-func init() {
-	pathTo = func(c *core.Ctx, roots []*ssa.Function, target string) {
-		cg := c.CallGraph()
-		prev := map[*ssa.Function]*ssa.Function{}
-		var q []*ssa.Function
-		for _, r := range roots {
-			prev[r] = r
-			q = append(q, r)
-		}
-		for len(q) > 0 {
-			f := q[0]
-			q = q[1:]
-			if core.FuncKey(f) == target {
-				for x := f; ; x = prev[x] {
-					fmt.Println("   <-", x)
-					if prev[x] == x {
-						break
-					}
-				}
-				return
-			}
-			if n := cg.Nodes[f]; n != nil {
-				for _, e := range n.Out {
-					if _, ok := prev[e.Callee.Func]; !ok {
-						prev[e.Callee.Func] = f
-						q = append(q, e.Callee.Func)
-					}
-				}
-			}
-		}
-		fmt.Println("no path to", target)
-	}
-}
-
-var pathTo func(c *core.Ctx, roots []*ssa.Function, target string)
